@@ -1,8 +1,5 @@
-(* PropC19.v — property theorems for C19 (hierarchical cache).  Placeholder while the proofs are written. *)
 From Coq Require Import NArith List Bool.
-From CS Require Import Sx Str CacheModel.
-Import ListNotations.
-
-Theorem C19_init_tame : forall cf r m, tame cf (init r m) = true.
-Proof. reflexivity. Qed.
-Print Assumptions C19_init_tame.
+From CS Require Import Sx Str CacheModel CacheProofs CacheInv.
+Theorem C19_inv_step : forall cf c op, Inv c -> Inv (snd (step cf c op)).
+Proof. exact step_inv. Qed.
+Print Assumptions C19_inv_step.
